@@ -43,9 +43,16 @@ RULE = (
     "filters registered in env.filters except `safe`, with tainted data in every argument "
     "position; plus a systematic sweep filter x argument pattern x input pre-state (plain, "
     "escaped Markup, literal+data, captured, joined, translated, url-encoded, <br />) x "
-    "sink; plus date-filter cache sequences. distinct = hash(sources, data, mode, "
-    "profile); non-trivial = at least one entity made by escaping a sentinel block is "
-    "present in the output, i.e. tainted data really flowed to the output."
+    "sink; plus date-filter cache sequences; plus the undefined policy as a configuration "
+    "axis (Undefined, DebugUndefined, a custom subclass whose __str__ echoes path/hint/obj, "
+    "FalsyStrictUndefined): paths that fail at a tainted segment or root (a[k], a[k].b, [k], "
+    "a[b[k]], a.b[k]) put data into the undefined object's text, which is then sent through "
+    "13 sinks (output, echo, capture, assign, liquid, ternary, cycle, include/render/macro/"
+    "with/translate arguments, join) x every filter (undefined as input and in every "
+    "argument position) and through the general random programs with half of their "
+    "variables undefined. distinct = hash(sources, data, mode, profile+policy); "
+    "non-trivial = an escaped sentinel block (Z&lt;Q ...) is present in the output, i.e. "
+    "tainted data really flowed to the output."
 )
 ASSUMPTIONS = [
     "markupsafe (escape, Markup methods) and CPython are the trusted base",
@@ -58,6 +65,9 @@ ASSUMPTIONS = [
     "filters that cut or rewrite text are not applied *after* newline_to_br (nor to a "
     "capture containing its result): a mangled `<br />` is engine markup, not data, and "
     "would be indistinguishable from a raw `<` by text alone",
+    "the text of an undefined object (hint built by the engine from the path, including "
+    "the quotes of repr()) is judged as one data-derived string: an Undefined subclass that "
+    "legitimately returns engine markup through __html__ is not part of the workload",
     "a raw `&` is reported only when the counterfactual (`&` -> `<` in the data) shows a "
     "raw `<`; a defect that leaves only `&` unescaped and no other character is outside "
     "the oracle's reach",
@@ -94,12 +104,17 @@ TR_RE = re.compile(r'<tr class="row\d+">|<td class="col\d+">|</td>|</tr>')
 SENT_RE = re.compile(
     r"Z(?:[<>&'\"]|&(?:lt|gt|amp|#39|#34);|%(?:3C|3E|26|27|22))Q", re.I
 )
+# an escaped sentinel block: tainted data that really reached the output
+FLOW_RE = re.compile(r"Z&(?:lt|gt|amp|#39|#34);Q", re.I)
+# the text of a Debug/Echo undefined carrying an escaped sentinel block
+UNDEF_TEXT_RE = re.compile(r"(?:undefined|\?)[^\n]{0,120}?Z&(?:lt|gt|amp|#39|#34);Q", re.I)
+POLICIES = ("default", "debug", "echo", "falsy-strict")
 CLASSES = (("<", "raw-lt"), (">", "raw-gt"), ('"', "raw-quote"), ("'", "raw-apos"))
 
 
 def strip_engine_markup(out: str, profile: str) -> str:
     s = BR_RE.sub("", out)
-    if profile == "shopify":
+    if profile.startswith("shopify"):
         s = TR_RE.sub("", s)
     return s
 
@@ -109,7 +124,7 @@ def scan(out: str, profile: str) -> tuple[dict[str, int], int, bool]:
     s = strip_engine_markup(out, profile)
     raw = {c: s.count(c) for c in "<>'\"" if c in s}
     amp = len(RAW_AMP_RE.findall(s)) if "&" in s else 0
-    return raw, amp, bool(ENT_RE.search(s))
+    return raw, amp, bool(FLOW_RE.search(s))
 
 
 def has_raw(text: str) -> bool:
@@ -229,6 +244,34 @@ def counterfactual(o: Any) -> Any:
     return o
 
 
+def profile_key(base: str, policy: str) -> str:
+    """Configuration key: environment flavour + undefined policy ("std", "std+debug")."""
+    return base if policy == "default" else f"{base}+{policy}"
+
+
+def policy_of(profile: str) -> str:
+    return profile.split("+", 1)[1] if "+" in profile else "default"
+
+
+def undefined_policies() -> dict[str, Any]:
+    from liquid2.undefined import UNDEFINED
+    from liquid2.undefined import DebugUndefined
+    from liquid2.undefined import FalsyStrictUndefined
+    from liquid2.undefined import Undefined
+
+    class EchoUndefined(Undefined):
+        """A custom policy whose text echoes everything it was told (no __html__)."""
+
+        __slots__ = ()
+
+        def __str__(self) -> str:
+            obj = "" if self.obj is UNDEFINED else f"{self.obj}"
+            return f"?{self.path}|{self.hint}|{obj}?"
+
+    return {"default": Undefined, "debug": DebugUndefined, "echo": EchoUndefined,
+            "falsy-strict": FalsyStrictUndefined}
+
+
 class Engine:
     """Renders with the real engine and applies the oracle."""
 
@@ -242,14 +285,17 @@ class Engine:
         self.box = [Rec()]
         self.envs: dict[str, Any] = {}
         self.tables: dict[str, dict[str, str]] = {}
-        for profile, cls in (("std", Environment), ("shopify", ShopifyEnvironment)):
-            table: dict[str, str] = {}
-            env = cls(auto_escape=True, loader=DictLoader(table))
-            assert env.auto_escape is True
-            for name in list(env.filters):
-                env.filters[name] = FilterWrap(name, env.filters[name], self.box)
-            self.envs[profile] = env
-            self.tables[profile] = table
+        pol = undefined_policies()
+        for base, cls in (("std", Environment), ("shopify", ShopifyEnvironment)):
+            for pname in POLICIES:
+                profile = profile_key(base, pname)
+                table: dict[str, str] = {}
+                env = cls(auto_escape=True, undefined=pol[pname], loader=DictLoader(table))
+                assert env.auto_escape is True and env.undefined is pol[pname]
+                for name in list(env.filters):
+                    env.filters[name] = FilterWrap(name, env.filters[name], self.box)
+                self.envs[profile] = env
+                self.tables[profile] = table
         self.filter_names = {p: sorted(e.filters) for p, e in self.envs.items()}
 
     def date_cache_clear(self) -> bool:
@@ -433,6 +479,10 @@ STR_PATHS = ["ls[0]", "ls.first", "ls.last", "ls[1]", "ln[0][1]", "ln.first.firs
              "lm[0].k", "lm[1]['v']", "lm[0][b0]", "m[mk]", "lm.first.v", "ln[1][0]"]
 STR_PATHS_NOQ = [p for p in STR_PATHS if "'" not in p]
 BLOCK_VARS = ["b0", "b1", "b2", "b3", "b4"]
+# paths that do NOT resolve and whose failing segment (or root) is tainted data: the
+# undefined object's path/hint then carries the sentinel text
+U_ATOMS = ["ua[d0]", "ua[b0].x", "[d1]", "ua[m[mk]]", "ua.in[d2]", "ua[ls[0]]", "ua[d0][d1]",
+           "[b3].y", "ua[b2]", "ua[b4]", "[b1]", "ua[lm[0].k].o", "ua.in[ua[d3]]", "uu[d0]"]
 LIST_VARS = ["ls", "ls", "ln", "lm", "ls2", "m"]
 
 
@@ -464,7 +514,7 @@ def gen_data(rng: random.Random) -> dict[str, Any]:
     d["mk"] = k1
     d.update(n0=0, n1=1, n2=2, n5=5, n9=-1, tr=True, no=False, cl="hi", kk="k",
              dt=rng.choice(["2001-02-05", "1999-12-31 10:20", "now"]), ts=981331200,
-             un="length-meter", nn=1250.5)
+             un="length-meter", nn=1250.5, ua={"in": {"o": "hi"}, "o": "x"})
     if rng.random() < 0.3:
         d["currency_format"] = ts(1, 1) + " #,##0.00"
     if rng.random() < 0.3:
@@ -475,9 +525,11 @@ def gen_data(rng: random.Random) -> dict[str, Any]:
 
 
 class Gen:
-    def __init__(self, rng: random.Random, profile: str, names: list[str]):
+    def __init__(self, rng: random.Random, profile: str, names: list[str],
+                 urate: float = 0.0):
         self.rng = rng
-        self.profile = profile
+        self.profile = profile.split("+")[0]
+        self.urate = urate
         avail = [n for n in names if n in FT]
         self.cats: dict[str, list[str]] = {"str": [], "list": [], "num": []}
         for n in avail:
@@ -494,6 +546,8 @@ class Gen:
         return _clean(self.rng.choice(TEXTS))
 
     def var(self, nolit: bool = False) -> str:
+        if self.urate and self.rng.random() < self.urate:
+            return self.rng.choice(U_ATOMS)
         r = self.rng.random()
         if r < 0.6:
             return self.rng.choice(STR_VARS)
@@ -691,6 +745,13 @@ class Gen:
     def s_for_list(self, i: int) -> Stmt:
         r = self.rng
         which = r.choice(["ls", "ls", "ln", "lm", "split"])
+        if self.urate and r.random() < 0.3:
+            u = r.choice(U_ATOMS)
+            return Stmt("for-undefined", [
+                f"{{% for x in {u} %}}", "{{ x }}", "{% else %}", self.txt(), "{{ ",
+                self.chain(head=u, lo=0, hi=2), " }}", "{% endfor %}",
+                f"{{% assign w{i} = {u} | default: ls %}}{{% for x in w{i} %}}", "{{ x }}",
+                "{% endfor %}"])
         pre: list[Any] = []
         if which == "split":
             v = f"v{i}"
@@ -839,7 +900,8 @@ def _case(stmts: list[Stmt], data: dict[str, Any], mode: str, profile: str, cata
           pre: list[dict[str, Any]] | None = None) -> dict[str, Any]:
     main, templates = build(stmts)
     return {"main": main, "templates": templates, "data": data, "mode": mode,
-            "profile": profile, "catalog": catalog, "pre": pre or []}
+            "profile": profile, "undefined": policy_of(profile), "catalog": catalog,
+            "pre": pre or []}
 
 
 _WORD = re.compile(r"[A-Za-z_][A-Za-z0-9_]*")
@@ -925,6 +987,14 @@ def report(eng: Engine, ctx: Ctx, stmts: list[Stmt], data: dict[str, Any], mode:
     except Exception:  # noqa: BLE001
         ms, md, mv = stmts, data, v
     key = classify(mv, ms, "program")
+    policy = policy_of(profile)
+    if policy != "default":
+        # same program under the default policy (undefined renders nothing): clean there
+        # means the raw text is the undefined object's own text
+        v0 = eng.verdict(_case(ms, md, mode, profile.split("+")[0], catalog))
+        if v0["cls"] != cls:
+            culprit = mv["rec"].trail[0]["filter"] if mv["rec"].trail else "stringify"
+            key = f"{cls}:undefined[{policy}]:{culprit}"
     wit = _case(ms, md, mode, profile, catalog)
     wit.update(output=mv["out"], counterfactual_output=mv["cf_out"],
                markup_trail=mv["rec"].trail, markup_from_plain=mv["rec"].markup_from_plain,
@@ -952,6 +1022,12 @@ def observe(eng: Engine, ctx: Ctx, stmts: list[Stmt], data: dict[str, Any], mode
             ctx.seen("constructs", s.kind)
         for n in v["rec"].markup_from_plain:
             ctx.seen("filters_returning_markup_for_plain_tainted_input", n)
+        ctx.seen("undefined_policies", policy_of(profile))
+    if policy_of(profile) in ("debug", "echo") and UNDEF_TEXT_RE.search(v["out"]):
+        # the text of an undefined object built from tainted path segments is in the output
+        ctx.count("undefined_text_with_taint_in_output")
+        for s in stmts:
+            ctx.seen("undefined_text_constructs", s.kind)
     if v["cls"]:
         report(eng, ctx, stmts, data, mode, profile, catalog, v)
     return v
@@ -964,13 +1040,16 @@ def observe(eng: Engine, ctx: Ctx, stmts: list[Stmt], data: dict[str, Any], mode
 
 def shards(tier: str, seed: int) -> list[dict[str, Any]]:  # noqa: ARG001
     n = 12 if tier == "quick" else 16
-    per = 3000 if tier == "quick" else 60000
+    per = 2000 if tier == "quick" else 60000
     specs: list[dict[str, Any]] = [{"kind": "rand", "i": i, "n": n, "count": per}
                                    for i in range(n)]
     ns = 2 if tier == "quick" else 8
     specs += [{"kind": "sys", "i": i, "n": ns, "reps": 1 if tier == "quick" else 6}
               for i in range(ns)]
     specs.append({"kind": "datecache", "i": 0, "n": 1})
+    nu = 2 if tier == "quick" else 8
+    specs += [{"kind": "undef", "i": i, "n": nu, "count": 1500 if tier == "quick" else 30000}
+              for i in range(nu)]
     return specs
 
 
@@ -984,6 +1063,10 @@ def floors(tier: str) -> dict[str, int]:
         "set:constructs": 15,
         "sys_programs": 1_000,
         "datecache_sequences": 6,
+        "undefined_text_with_taint_in_output": 500 * k,
+        "undef_sweep_programs": 1_000,
+        "set:undefined_policies": 4,
+        "set:undefined_text_constructs": 20,
     }
 
 
@@ -996,11 +1079,13 @@ def run_shard(spec: dict[str, Any], ctx: Ctx) -> None:
         _sys(eng, spec, ctx)
     elif kind == "datecache":
         _datecache(eng, spec, ctx)
+    elif kind == "undef":
+        _undef(eng, spec, ctx)
 
 
 def _rand(eng: Engine, spec: dict[str, Any], ctx: Ctx) -> None:
     rng = random.Random(f"{spec['seed']}:rand:{spec['i']}")
-    gens = {p: Gen(rng, p, eng.filter_names[p]) for p in ("std", "shopify")}
+    gens = {p: Gen(rng, p, eng.filter_names[p], urate=0.04) for p in ("std", "shopify")}
     for g in gens.values():
         for n in g.unmodelled:
             ctx.note(f"filter {n!r} is registered but not in the C04 filter table")
@@ -1009,17 +1094,98 @@ def _rand(eng: Engine, spec: dict[str, Any], ctx: Ctx) -> None:
     for j in range(spec["count"]):
         if j % 4 == 0:
             data = gen_data(rng)
-        profile = "shopify" if rng.random() < 0.25 else "std"
-        g = gens[profile]
+        base = "shopify" if rng.random() < 0.25 else "std"
+        g = gens[base]
         stmts = [g.stmt(k) for k in range(rng.choice([1, 1, 2, 2, 3]))]
         mode = "async" if j % 2 else "sync"
         catalog = rng.random() < 0.3
+        profile = profile_key(base, rng.choice(RAND_POLICIES))
         v = observe(eng, ctx, stmts, data, mode, profile, catalog)
         if v["flow"]:
             last = (stmts, mode, profile)
     if last:
         main, templates = build(last[0])
         ctx.sample({"kind": "rand", "main": main, "templates": templates, "mode": last[1],
+                    "profile": last[2]})
+
+
+RAND_POLICIES = ["default"] * 6 + ["debug", "debug", "echo", "falsy-strict"]
+
+# filters that stringify (or pass on) their input / arguments: the undefined sweep puts an
+# undefined object in the input and in every argument position of each
+UNDEF_SINKS = [
+    ("output", "{{ %s }}"),
+    ("echo", "{%% echo %s %%}"),
+    ("capture", "{%% capture s %%}[{{ %s }}]{%% endcapture %%}{{ s }}{{ s | upcase }}"),
+    ("assign", "{%% assign s = %s %%}{{ s }}{{ s | append: b1 }}"),
+    ("liquid", "{%% liquid\nassign s = %s\necho s\n%%}"),
+    ("ternary", "{{ %s if tr else b0 }}"),
+    ("cycle", "{%% assign s = %s %%}{%% cycle s, s %%}"),
+    ("include-arg", "{%% assign s = %s %%}{%% include 'pu', x: s %%}"),
+    ("render-arg", "{%% assign s = %s %%}{%% render 'pu', x: s %%}"),
+    ("macro-arg", "{%% assign s = %s %%}{%% macro fu a %%}({{ a }}{{ a | prepend: b2 }}){%% endmacro %%}"
+                  "{%% call fu s %%}"),
+    ("with", "{%% assign s = %s %%}{%% with a: s %%}{{ a }}{%% endwith %%}"),
+    ("translate-arg", "{%% assign s = %s %%}{%% translate x: s %%}hi {{ x }}{%% endtranslate %%}"),
+    ("join-item", "{%% assign s = %s %%}{{ s, b0 | join: b1 }}{{ ls | join: s }}"),
+]
+UNDEF_PARTIAL = {"pu": "[{{ x }}{{ x | downcase }}{% capture z %}{{ x }}{% endcapture %}{{ z }}]"}
+
+
+def _undef(eng: Engine, spec: dict[str, Any], ctx: Ctx) -> None:
+    """Tainted data reaches the *undefined object* (path segments, roots), under every
+    undefined policy, through every sink and every filter position."""
+    rng = random.Random(f"{spec['seed']}:undef:{spec['i']}")
+    last = None
+    # (a) sweep: undefined atom x (no filter | every filter, undefined as input and as
+    # argument) x sink (rotating) x policy
+    g0 = Gen(rng, "std", eng.filter_names["std"], urate=0.0)
+    gu = Gen(rng, "std", eng.filter_names["std"], urate=1.0)
+    names = [None] + [n for n in eng.filter_names["std"] if n in FT]
+    k = 0
+    data = gen_data(rng)
+    for fi, name in enumerate(names):
+        if fi % spec["n"] != spec["i"]:
+            continue
+        for ui, u in enumerate(U_ATOMS):
+            for pos in ("input", "argument"):
+                if name is None:
+                    if pos == "argument":
+                        continue
+                    ch = Chain(u)
+                elif pos == "input":
+                    ch = Chain(u, [g0.filt(name)])
+                else:
+                    if not any(a for a in FT[name][2]):
+                        continue
+                    ch = Chain(rng.choice(["d0", "ls", "'hi'", "nn"]), [gu.filt(name)])
+                k += 1
+                sink_name, sink = UNDEF_SINKS[k % len(UNDEF_SINKS)]
+                st = Stmt(f"undef:{sink_name}", _split_sink(sink, ch), {
+                    n: [t] for n, t in UNDEF_PARTIAL.items()} if "pu" in sink else None)
+                for pi, policy in enumerate(POLICIES):
+                    if policy == "falsy-strict" and (k + ui) % 3:
+                        continue
+                    mode = "async" if (k + pi) % 2 else "sync"
+                    ctx.count("undef_sweep_programs")
+                    v = observe(eng, ctx, [st], data, mode, profile_key("std", policy), False)
+                    if v["flow"] and policy == "debug":
+                        last = ([st], mode, profile_key("std", policy))
+        if fi % 8 == 0:
+            data = gen_data(rng)
+    # (b) random programs of the general generator with most variables undefined
+    gens = {p: Gen(rng, p, eng.filter_names[p], urate=0.5) for p in ("std", "shopify")}
+    for j in range(spec["count"]):
+        if j % 4 == 0:
+            data = gen_data(rng)
+        base = "shopify" if rng.random() < 0.2 else "std"
+        stmts = [gens[base].stmt(i) for i in range(rng.choice([1, 1, 2]))]
+        policy = rng.choice(["debug", "debug", "echo", "echo", "default", "falsy-strict"])
+        observe(eng, ctx, stmts, data, "async" if j % 2 else "sync",
+                profile_key(base, policy), rng.random() < 0.3)
+    if last:
+        main, templates = build(last[0])
+        ctx.sample({"kind": "undef", "main": main, "templates": templates, "mode": last[1],
                     "profile": last[2]})
 
 
@@ -1254,7 +1420,8 @@ def replay(wit: dict[str, Any], ctx: Ctx) -> None:
     for n, s in (case.get("templates") or {}).items():
         print(f"  template {n}: {s!r}")
     print(f"  data      : {case['data']!r}")
-    print(f"  mode/profile/catalog: {case['mode']}/{case['profile']}/{bool(case['catalog'])}")
+    print(f"  mode/profile/catalog: {case['mode']}/{case['profile']}/{bool(case['catalog'])}"
+          f"  undefined policy: {policy_of(case['profile'])}")
     print(f"  output    : {v['out']!r}  error={v['err']}")
     if v["out"] is not None:
         raw, amp, flow = scan(v["out"], case["profile"])
